@@ -316,6 +316,20 @@ def malformed_prelude(rng):
     return items
 
 
+def two_digit_byte_index_items():
+    """BYTEn with an index of two digits: the tool may refuse the spelling, but if it gives a value, it is byte n"""
+    def byte_n(x, n):
+        return (x >> (8 * n)) & 0xFF
+    out = []
+    for text, x, n in [('BYTE12($1234)', 0x1234, 12), ('BYTE10(1 << 80)', 1 << 80, 10), ('BYTE11(0 - 1)', -1, 11), ('BYTE01($1234)', 0x1234, 1),
+                       ('BYTE10($0102030405060708090A0B0C)', 0x0102030405060708090A0B0C, 10), ('BYTE20(1 << 160) + 1', None, None),
+                       ('1 + BYTE13(1 << 104)', None, None), ('BYTE00($1234)', 0x1234, 0)]:
+        exp = byte_n(x, n) if x is not None else 2
+        out.append({'text': text, 'wf': True, 'either': True, 'exp': exp, 'dc': None, 'nt': False, 'shape': 'byte-index-of-two-digits', 'feat': [],
+                    'buckets': ['byte:index-of-two-digits']})
+    return out
+
+
 def sweep_items(max_items=None):
     """All trees with <=2 binary operators over the 10 operators and the leaf set (exhaustive); unary minus at any node
     for the one-operator trees."""
@@ -355,17 +369,17 @@ class C07(core.Check):
         'the modulo operator is always surrounded by spaces (a glued % starts a binary literal)',
         'names never look like literals (b101, beefH)',
         'trailing-H hexadecimal uses an upper-case H',
-        "in operand position the character literal ';' and bracket characters are not used: the instruction-line grammar "
-        "cuts the statement there before the expression parser sees it (line grammar, not expression semantics)",
+        "in operand position bracket characters are not used: the instruction-line grammar reads them as operand forms "
+        "before the expression parser sees them (line grammar, not expression semantics)",
     )
     chunk = 400
     crosscheck_every = {'quick': 10, 'thorough': 10}
     required_buckets = {b: 3 for b in [
         'pair:cross-level', 'pair:same-level', 'neg:leading-then-binop', 'neg:after-operator-then-binop',
         'neg:before-parenthesis', 'neg:doubled', 'lit:dec', 'lit:dollar', 'lit:0x', 'lit:H', 'lit:pct', 'lit:b',
-        'lit:char', 'lit:char-blank-or-tab', 'lit:leading-zeros', 'byte:negative', 'byte:beyond-length', 'trunc:positive', 'trunc:negative', 'real-quotient',
+        'lit:char', 'lit:char-blank-or-tab', 'lit:leading-zeros', 'byte:negative', 'byte:beyond-length', 'byte:index-of-two-digits', 'trunc:positive', 'trunc:negative', 'real-quotient',
         'malformed:drop-operand', 'malformed:double-operator', 'malformed:unbalance', 'malformed:juxtapose',
-        'malformed:trailing-operator', 'malformed:unclosed-func', 'malformed:foreign-char', 'channel:cli', 'channel:cli-offset-behind-a-minus', 'channel:cli-offset-behind-a-plus',
+        'malformed:trailing-operator', 'malformed:unclosed-func', 'malformed:foreign-char', 'channel:cli', 'channel:cli-offset-behind-a-minus', 'channel:cli-offset-behind-a-plus', 'channel:cli-condition', 'channel:cli-condition/form-0', 'channel:cli-condition/form-2',
         'channel:cli-malformed', 'channel:direct', 'channel:cli-operand']}
 
     def __init__(self):
@@ -398,12 +412,22 @@ class C07(core.Check):
             if t.startswith("'") or t.startswith('"'):
                 t = '0 + ' + t     # a leading quote is the data directive's string syntax (C11), not an expression
                 it = dict(it, text=t)
-            as_operand = rng.random() < 0.4 and not any(ch in t for ch in '[]{};')   # ';' ends an instruction statement (line grammar)
+            as_operand = rng.random() < 0.4 and not any(ch in t for ch in '[]{}')
             if not as_operand and rng.random() < 0.2 and ';' not in t:
                 # through a constant: the value of the constant is the value of its defining expression
                 cn = f'c07k_{len(line_of)}'
                 lines.append(f'{cn} = {t}' if rng.random() < 0.6 else f'{cn} EQU {t}')
                 lines.append(f'.8byte {cn}')
+            elif not as_operand and len(line_of) % 6 == 3 and malformed is None and it.get('dc') is None and 0 <= it['exp'] < (1 << 62) and \
+                    ''.join(re.findall(r"\s+|\$[0-9a-fA-F]+|0x[0-9a-fA-F]+|%[01]+|\d+(?![\w$])|<<|>>|[+\-*/&|^()%]", t)) == t:
+                # as (one side of) a preprocessor condition: both sides are numbers, so the comparison is one of integers (not in
+                # programs with a planted malformed line: that line must not end up inside a branch that is not compiled)
+                e_ = it['exp']
+                form = (len(line_of) // 6) % 5
+                head, truth = [([f'#if {t}'], 1 if e_ != 0 else 0), ([f'#if {t} == {e_}'], 1), ([f'#if {e_ + 1} > {t}'], 1),
+                               ([f'#if {t} >= {e_ + 1}'], 0), (['#if 0', '.8byte 2', f'#elif {t} != {e_}'], 0)][form]
+                lines.extend(head + ['.8byte 1', '#else', '.8byte 0', '#endif'])
+                it = dict(it, exp=truth, text=head[-1], buckets=list(it.get('buckets', ())) + ['channel:cli-condition', 'channel:cli-condition/form-' + str(form)])
             elif not as_operand and len(line_of) % 6 == 1 and re.fullmatch(r"[\s\w.+\-*/&|^<>()$%]+", t) and not t.lstrip().startswith(('-', '+')) \
                     and it.get('dc') is None:
                 # as the offset of an indirect register: [sp + e] is e, [sp - e] is 0 - e (the sign in front belongs to the first
@@ -445,6 +469,7 @@ class C07(core.Check):
         for i in range(0, len(pre), 200):
             yield self._direct_case(pre[i:i + 200], 'prelude')
         yield self._direct_case(mal, 'prelude-malformed')
+        yield self._direct_case(two_digit_byte_index_items(), 'prelude-two-digit-byte-index')
         # CLI channel: prelude items too (20 per program), both endians, JSON and YAML
         k = 0
         for i in range(0, len(pre), 20):
@@ -566,6 +591,11 @@ class C07(core.Check):
 
     def _judge_item(self, it, r):
         b = it.get('buckets', ())
+        if it.get('either'):
+            # refused, or the value the property prescribes: nothing else
+            if 'v' in r and r['v'] != it['exp']:
+                return core.violated('wrong-value/' + it['shape'], {'text': it['text'], 'expected': it['exp'], 'got': r['v']}, buckets=b)
+            return core.held(buckets=b)
         if not it['wf']:
             if 'v' in r:
                 return core.violated('malformed-accepted/' + it['kind'], {'text': it['text'], 'value': r['v']}, buckets=b)
